@@ -332,13 +332,17 @@ SPEC = Spec(
     floors={"R18-NDARRAY": 5, "R18-CLOSURE": 35, "R18-STABLE": 5, "R18-PICKLE": 5},
     explanation=(
         "R18-NDARRAY: the attributes of the wrapped array that flow into the key "
-        "builder in update_for_ndarray include its dtype, its shape and its bytes; "
-        "device arrays go through that rule. R18-CLOSURE: the transitive closure "
+        "builder in update_for_ndarray include its dtype, its shape and its bytes "
+        "(in logical order: no tobytes(order=...)); device arrays go through that "
+        "rule; the updater that applies to numpy scalars (PytatoKeyBuilder's, else "
+        "the first up the MRO in the installed loopy/pytools sources) feeds the "
+        "dtype. R18-CLOSURE: the transitive closure "
         "of field annotations starting from every node kind is computed; every "
         "reachable repository class is a dataclass (keyed field by field by "
-        "pytools), an enum, or defines update_persistent_hash reading all its "
-        "fields. R18-STABLE: no hash()/id()/repr() and no unordered iteration in "
-        "any key updater; stateless reductions key/hash/compare by type. "
+        "pytools), an enum, or defines update_persistent_hash feeding all its "
+        "compared fields whole (not only the values or only the keys of a mapping). R18-STABLE: no hash()/id()/repr() and no unordered iteration in "
+        "any key updater; updaters write no class-level/global state; stateless "
+        "reductions key/hash/compare by type. "
         "R18-PICKLE: the cached hash is not part of the pickled state (shared with "
         "C04)."),
     not_decided=(
